@@ -147,6 +147,14 @@ def gen_cards(rng):
                 ob["interpolation_xgrid"] = list(base_ob["interpolation_xgrid"])
                 ob["interpolation_is_log"] = base_ob["interpolation_is_log"]
                 ob["interpolation_polynomial_degree"] = base_ob["interpolation_polynomial_degree"]
+        if j > 0 and rng.random() < 0.15:
+            # another card on the same grid up to the 7th digit of one node
+            g = list(shared["G0"])
+            k = rng.randrange(1, len(g) - 1)
+            g[k] = g[k] * (1.0 + rng.choice([1e-7, -1e-7]))
+            ob["interpolation_xgrid"] = g
+            ob["interpolation_is_log"] = base_ob["interpolation_is_log"]
+            ob["interpolation_polynomial_degree"] = base_ob["interpolation_polynomial_degree"]
         # aliasing choices
         same_grid = ob["interpolation_xgrid"] == shared["G0"]
         if same_grid and rng.random() < 0.7:
@@ -222,9 +230,12 @@ def gen_edit(rng, shared, cardsd):
     if r < 0.82:
         k = rng.choice(["K0", "XK0"])
         return {"root": k, "path": [0], "action": "delete"}
-    if r < 0.9:
+    if r < 0.86:
         return {"root": "G0", "path": [1], "action": "set", "value": rng.choice([0.02, 0.15])}
-    if r < 0.95:
+    if r < 0.92:
+        # the same grid up to the 7th digit of one node (as re-read from a file with limited precision)
+        return {"root": "G0", "path": [rng.choice([1, 2])], "action": "scale", "value": rng.choice([1.0 + 1e-7, 1.0 - 1e-7, 1.0 + 3e-6])}
+    if r < 0.96:
         return {"root": "TG0", "path": ["Z"], "action": "set", "value": rng.choice([0.0, 1.0, 2.0])}
     o = rng.choice([k for k in cardsd if k.startswith("O")])
     return {"root": o, "path": ["observables", rng.choice(["F2_charm", "FL_light", "F3_total"])],
@@ -347,6 +358,11 @@ def _apply_edit(root_obj, edit, shared_objs):
             return False
     last = path[-1]
     try:
+        if act == "scale":
+            if not isinstance(tgt[last], (int, float)) or isinstance(tgt[last], bool):
+                return False
+            tgt[last] = tgt[last] * val
+            return True
         if act == "set":
             if isinstance(tgt, list) and not (isinstance(last, int) and 0 <= last < len(tgt)):
                 return False
